@@ -22,6 +22,9 @@ class Ctx:
         self.tier = tier
         self.seed = seed
         self.repo = repo
+        from . import conds
+
+        conds.INT_TEXTS = set(repo.int_texts) if hasattr(repo, "int_texts") else set()
         self.t0 = time.time()
         self.obligations: list[dict] = []
         self.notes: list[str] = []
